@@ -177,6 +177,21 @@ func run(seed int64, n int, dir string, _ []string) {
 		o.Case(fmt.Sprintf("c12.setcpu %d %d", req, runtime.NumCPU()), fmt.Sprint(fl.CPU))
 	}
 
+	// ---- every clause of the pipeline over a table whose every stage is cut: model (c12.pipe), the harness' own
+	// slices, every --cpu value twice (stages.go) ----
+	quick := os.Getenv("VERIF_TIER") != "thorough"
+	g2 := hc.NewGen(seed*7919 + 12)
+	for r := 0; r < 1+n/1000; r++ {
+		runStages(g2, o, scratch, r, quick)
+	}
+
+	// ---- session flags that keep state or caches: value.StrToTime under user formats against the model
+	// (c12.strtotime), programs under flag settings at every --cpu value, every row against itself alone (flags.go) ----
+	runStrToTime(g2, o, n/3+20)
+	for r := 0; r < 1+n/1000; r++ {
+		runFlags(g2, o, scratch, r)
+	}
+
 	// ---- same program, every --cpu value, twice: results and written files must be identical ----
 	rounds := n / 150
 	if rounds < 2 {
